@@ -421,6 +421,7 @@ def main(tier, seed, replay):
     if hexe is None:
         p = L.write_replay(PROP, "harness_build.txt", "the correspondence harness no longer compiles against /repo's working tree\n" + hlog[-6000:])
         res.violation(p, "harness build failed", no_input=True)
+    L.coq_make(["FS/Run.vo"])     # Extract/Fs.v needs it; it is not in the closure of Properties/C13.v
     mexe, mlog = L.build_model("fs", "Extract/Fs.v", "fs.ml")
     if mexe is None and ok:
         p = L.write_replay(PROP, "model_build.txt", mlog[-6000:])
